@@ -734,11 +734,15 @@ struct TemplateCore {
                         ++offset;
                     }
 
-                    if (offset < end_offset) {
+                    // The level selects the loop's item slot: one per enclosing loop. It is stored in 8 bits
+                    // (in the loop and in every variable that refers to it); a loop inside 256 loops stays text.
+                    const SizeT level = ((loop_tag != nullptr) ? (SizeT(loop_tag->Level) + SizeT{1}) : SizeT{0});
+
+                    if ((offset < end_offset) && (level < SizeT{256})) {
                         LoopTag *tag = (storage->Insert(TagBit{})).MakeLoopTag();
                         tag->Offset  = loop_offset;
                         tag->Parent  = loop_tag;
-                        tag->Level   = SizeT8(parent_storage.Size());
+                        tag->Level   = SizeT8(level);
                         loop_tag     = tag;
 
                         parseLoopAttributes(content, offset, *tag);
@@ -1350,7 +1354,6 @@ struct TemplateCore {
             SizeT         loop_index     = 0;
 
             while (loops_items_->Size() <= tag.Level) {
-                // The level counts every enclosing tag (<if>, {svar:...}), not only loops.
                 *loops_items_ += LoopItem{};
             }
 
